@@ -20,7 +20,7 @@ TECHNIQUE = "runtime monitoring: funnel taps on warp_to_shape/warp_to_mask + coo
 LEVEL_TEXT = ("Every re-framing/resampling op (crop family, rescale/resize family, zoom, rotate, mirror, transform about centre, warp to shape/mask with affine, chained, PWA and TPS "
               "warps, pyramids) on Image / MaskedImage / BooleanImage, 2D and 3D, is judged by decoding source coordinates out of the result pixels at the returned landmarks, by "
               "consistency of the returned transform with pixels and landmarks, and by the half-plane mask; every underlying warp is judged at the funnel; held-on-what-was-observed")
-LEVEL_NOTE = "trusted: order-1 interpolation of an affine function is exact in the interior (judged only where the 2^d neighbours decode strictly inside the source); tolerance 1e-6 affine, 0.15 px smooth warps"
+LEVEL_NOTE = "trusted: order-1 interpolation of an affine function is exact in the interior (judged only where the 2^d neighbours decode strictly inside the source); tolerance 1e-6 affine; for PWA/TPS warps exactness is judged through T(L') = L (1e-6) and T(p) = decoded source coordinate of pixel p, the bilinear decode keeps a 0.5 / 1.5 px sanity bound"
 DESIGN_REF = "DESIGN.md section 7, C01"
 RULE = ("op x parameters (scales 0.3-3 scalar/per-axis, 3 rounding modes, any angle, retain_shape on/off, integer/fractional crop bounds, well-conditioned affines, PWA/TPS) x image class x "
         "dims x channels (1-4) x dtype x landmark classes, each with and without return_transform; non-trivial = the op changes the frame or resamples and >=3 landmarks could be judged; "
@@ -489,7 +489,7 @@ def w_ops(ctx, rng, i):
             t = mt.ThinPlateSplines(ms.PointCloud(ctrl_t), ms.PointCloud(Lsrc.copy()))
             smooth = True
         if smooth:
-            tol = 0.15 if op == "warp_pwa" else 0.6     # spline: bilinear decoding is only a sanity bound; exactness is judged through T(L') = L
+            tol = 0.5 if op == "warp_pwa" else 1.5     # smooth warps: bilinear decoding (across mesh kinks / spline curvature) is only a sanity bound; exactness is judged through T(L') = L
         opts = {"transform": type(t).__name__}
         try:
             if op == "warp_to_mask_affine":
@@ -563,11 +563,11 @@ def w_reuse(ctx, rng, i):
         g = np.array([[0, 0], [0, 1], [1, 0], [1, 1], [0.5, 0.5], [0.5, 0], [0, 0.5], [1, 0.5], [0.5, 1]])
         tpl = g * (TS + 1) - 1.0          # the template mesh reaches one pixel beyond the frame: every pixel strictly inside
         t = mt.PiecewiseAffine(ms.PointCloud(tpl), ms.PointCloud(P0))
-        tol = 0.15
+        tol = 0.5
     elif kind == "tps":
         tpl = (P0 - S / 2) * 0.9 + TS / 2.0
         t = mt.ThinPlateSplines(ms.PointCloud(tpl), ms.PointCloud(P0))
-        tol = 0.6
+        tol = 1.5
     else:
         tpl = (P0 - S / 2) @ gen.well_conditioned(rng, 2, 0.8, 1.3).T + TS / 2.0
         t = mt.AlignmentAffine(ms.PointCloud(tpl), ms.PointCloud(P0))
